@@ -145,7 +145,7 @@ func (t *tr) selector(x *ast.SelectorExpr) AV {
 		return avUnknown{}
 	case avTicker:
 		if x.Sel.Name == "C" {
-			return avTick{}
+			return avTick{b.src}
 		}
 	case avZero:
 		return avZero{}
